@@ -20,7 +20,7 @@ from __future__ import annotations
 import ast
 import re
 
-from ..absdom import PregexHooks, make_operand, parse_regex
+from ..absdom import PregexHooks, make_operand, parse_regex, pattern_of
 from ..classsets import named_classes, token_classes, merge, of_chars, MAXU
 from ..consts import fold_str
 from ..interp import FuncRef, Interp, PyRaise, Incomplete, _OrderedSet
@@ -60,12 +60,59 @@ def construct(model, cname, args):
     return "ok", hooks.handed[-1] if hooks.handed else None, hooks
 
 
+_READER_CACHE = {}
+
+
+def reader_function(model):
+    """The pipeline's reader - the function that turns a class text into (ranges, characters) - located by ROLE:
+    a class union is interpreted and the first library function that is called with the class text of an operand
+    and returns a pair of collections is the reader (its name and module do not matter)."""
+    if model.root in _READER_CACHE:
+        return _READER_CACHE[model.root]
+    try:
+        f = model.method(CLS, "__Class", "__extract_classes")
+        _READER_CACHE[model.root] = f
+        return f
+    except AnalysisError:
+        pass
+    import ast as _ast
+    found = []
+
+    class Rec(PregexHooks):
+        active = set()
+
+        def intercept(self, interp, target, args, kwargs, node):
+            if hasattr(target, "params") and target not in self.active and \
+                    any(isinstance(x, str) and x.startswith("[") and x.endswith("]") for x in list(args) + list(kwargs.values())):
+                self.active.add(target)
+                try:
+                    r = interp._call_func(target, list(args), dict(kwargs), node)
+                finally:
+                    self.active.discard(target)
+                if isinstance(r, tuple) and len(r) == 2 and all(isinstance(x, (set, frozenset, list, _OrderedSet)) for x in r):
+                    found.append(target)
+                return r
+            return super().intercept(interp, target, args, kwargs, node)
+    it = Interp(model, Rec(model), fuel=400000)
+    try:
+        a = it.construct(model.cls(CLS, "AnyFrom"), ["a", "c", "x"])
+        b = it.construct(model.cls(CLS, "AnyBetween"), ["b", "f"])
+        it.binop(_ast.BitOr(), a, b, None)
+    except PyRaise as e:
+        raise AnalysisError(f"anchor vanished: a plain class union fails with {e.name}")
+    if not found:
+        raise AnalysisError("anchor vanished: no function of the class pipeline reads a class text into (ranges, characters)")
+    _READER_CACHE[model.root] = found[0]
+    return found[0]
+
+
 def read_back(model, text):
     """Interpret the pipeline's reader on `text`: -> (ranges, chars) unescaped, or ('raise', exc)."""
-    f = model.method(CLS, "__Class", "__extract_classes")
+    f = reader_function(model)
     it = Interp(model, PregexHooks(model))
     try:
-        r = it.call(FuncRef(f), [text], {"unescape": True})
+        kw = {"unescape": True} if "unescape" in f.params else {}
+        r = it.call(FuncRef(f), [text] + ([True] if not kw and len([p for p in f.params if p != "self"]) >= 2 else []), kw)
     except PyRaise as e:
         return "raise", e
     return set(r[0]), set(r[1])
@@ -204,13 +251,47 @@ def _subpattern_text(pat, hit):
     return None
 
 
+def writer_table(model):
+    """The set of characters the class writer escapes, observed: AnyFrom(c) is interpreted for every ASCII character
+    and the text handed to the class pipeline is inspected (escaped iff it is '[' + backslash + c + ']')."""
+    base_init = model.method(CLS, "__Class", "__init__")
+
+    class Stop(Exception):
+        pass
+
+    class Rec(PregexHooks):
+        def intercept(self, interp, target, args, kwargs, node):
+            if target is base_init:
+                names = ["self", "pattern", "is_negated", "simplify_word"]
+                b = dict(zip(names, args))
+                b.update(kwargs)
+                self.handed = b.get("pattern")
+                raise Stop()
+            return super().intercept(interp, target, args, kwargs, node)
+    W = set()
+    ci = model.cls(CLS, "AnyFrom")
+    for cp in range(32, 127):
+        c = chr(cp)
+        h = Rec(model)
+        try:
+            Interp(model, h, fuel=100000).construct(ci, [c])
+        except Stop:
+            if h.handed == "[\\" + c + "]":
+                W.add(c)
+        except PyRaise:
+            pass
+    if not W:
+        raise AnalysisError("anchor vanished: the class writer escapes no ASCII character at all")
+    return W
+
+
 def tables(model):
     """W, R_esc, R_bare from the source constants."""
     base = model.cls(CLS, "__Class")
-    if "_to_escape" not in base.attrs:
-        raise AnalysisError("anchor vanished: __Class._to_escape")
-    W = ast.literal_eval(base.attrs["_to_escape"])
-    W = set(W)
+    if "_to_escape" in base.attrs:
+        W = set(ast.literal_eval(base.attrs["_to_escape"]))
+    else:
+        W = writer_table(model)      # the table lives elsewhere / under another name: observe what the writer escapes
     rp = reader_range_regex(model)
     tree = parse_regex(rp, 0)[0]
     # shape: endpoint '-' endpoint ; endpoint = BRANCH[ '\\' + alternatives , NOT-set ]
@@ -322,7 +403,7 @@ def run(ctx, model):
     # ---------------- R-CLSESC
     W, (e1, b1), (e2, b2), rp = tables(model)
     base = model.cls(CLS, "__Class")
-    sep = model.method(CLS, "__Class", "__separate_classes")
+    sep = reader_function(model)
     ctx.instance("R-CLSESC", key="tables", sample=f"W={sorted(W)} R_esc={sorted(c for c in e1 if not c.isalpha())}+[a-z] R_bare={sorted(b1)}")
     if (e1, b1) != (e2, b2):
         ctx.violation("R-CLSESC", sep.relpath, sep.short, "range_pattern", "start and end endpoint of range_pattern differ", sep.node.lineno)
@@ -427,7 +508,7 @@ def run(ctx, model):
         try:
             it = Interp(model, PregexHooks(model), fuel=300000)
             o = it.construct(model.cls(CLS, cname), [a() if callable(a) else a for a in args])
-            return "ok", (o.fields.get("_Pregex__pattern"), o.fields.get("_Class__verbose"), o.fields.get("_Class__is_negated"))
+            return "ok", (pattern_of(o), o.fields.get("_Class__verbose"), o.fields.get("_Class__is_negated"))
         except PyRaise as e:
             return "raise", e
         finally:
